@@ -684,4 +684,17 @@ example : calcBudgetNat 10 10 100000 99999 10 = 39 ∧ 39 ≤ 10 * (3 + 1) ∧ 9
 /-- executing a two-segment task: one segment fewer, measure strictly lower -/
 example : executeTask 9 [⟨1, 4, 4⟩, ⟨2, 4, 2⟩, ⟨3, 9, 9⟩] [⟨1, 4, 4⟩, ⟨2, 4, 2⟩] = [⟨3, 9, 9⟩, ⟨9, 6, 6⟩] := by decide
 
+/-- growth 1.5 = 3/2 from a first tier of 2000 documents (the default floor): every step multiplies the tier by at
+least 149/100 (`growthAtLeast`), 1 000 000 documents need 10 tiers at that rate, the budget is 81 ≤ 10·(10+1) -/
+example : growthAtLeast 3 2 149 100 2000 = true
+    ∧ tiersNeededRat 10 149 100 2000 1000000 64 0 = some 10
+    ∧ calcBudgetRat 10 3 2 1000001 1000000 2000 = 81 ∧ 81 ≤ 10 * (10 + 1) := by decide
+/-- the stuck tier: growth 1.5 from a first tier of one document never grows (`1·3/2 = 1`): the budget for 100
+documents is 100, and no rate above 1 can be established -/
+example : (1 * 3 / 2 = 1) ∧ calcBudgetRat 10 3 2 101 100 1 = 100 ∧ growthAtLeast 3 2 3 2 1 = false
+    ∧ growthAtLeast 3 2 101 100 1 = false := by decide
+/-- the repaired guard on the state of `convergence_FULL_is_false_pinned`: the two segments are merged -/
+example : planOf ⟨1, 1000, 2, 0, true⟩ (fun _ _ => 1) (fun r => (r.length : Int)) (fun a b => decide (a < b))
+    [⟨1, 1, 1⟩, ⟨2, 2, 2⟩] = [[⟨2, 2, 2⟩, ⟨1, 1, 1⟩]] := by decide
+
 end Bluge.C19
